@@ -123,6 +123,21 @@ fn collect(vs: &[AV], tasks: &mut Vec<usize>, ress: &mut Vec<usize>) {
     }
 }
 
+thread_local! { static INTRUDE: std::cell::Cell<bool> = const { std::cell::Cell::new(false) }; }
+
+/// modes `blockx` / `streamx`: between the events of the render under test, complete renders of an unrelated,
+/// task-free view are carried out on the same thread in the OTHER modes (renders are isolated from each other)
+async fn intrude(own: &str) {
+    if !INTRUDE.with(|i| i.get()) { return; }
+    let other = || sycamore::web::tags::p().children("other").into();
+    let _ = sycamore::web::render_to_string(other);
+    if own != "block" { let _ = sycamore::web::render_to_string_await_suspense(other).await; }
+    if own != "stream" {
+        let mut st = Box::pin(sycamore::web::render_to_string_stream(other));
+        while let Some(_) = StreamExt::next(&mut st).await {}
+    }
+}
+
 async fn drain() {
     for _ in 0..60 { tokio::task::yield_now().await; }
 }
@@ -203,9 +218,13 @@ fn render_block_opt(vs: &[AV], events: &[String], abandon: bool) -> Result<(Opti
                 *d2.borrow_mut() = Some(html);
             });
             drain().await;
+            intrude("block").await;
+            drain().await;
             let mut at = if done.borrow().is_some() { Some(0) } else { None };
             for (k, e) in events.iter().enumerate() {
                 s.fire(e);
+                drain().await;
+                intrude("block").await;
                 drain().await;
                 if at.is_none() && done.borrow().is_some() { at = Some(k + 1); }
             }
@@ -250,12 +269,16 @@ fn render_stream(vs: &[AV], events: &[String]) -> Result<(String, Vec<Vec<String
             };
             drain().await;
             let mut first = take(&mut stream, &mut ended, 0);
+            intrude("stream").await;
+            drain().await;
+            first.extend(take(&mut stream, &mut ended, 0));
             let shell = if first.is_empty() { String::new() } else { first.remove(0) };
             let mut per = vec![first];
             for (k, e) in events.iter().enumerate() {
                 s.fire(e);
                 drain().await;
                 let mut got = take(&mut stream, &mut ended, k + 1);
+                intrude("stream").await;
                 drain().await;
                 got.extend(take(&mut stream, &mut ended, k + 1));
                 per.push(got);
@@ -383,7 +406,10 @@ fn exec(line: &str) -> (String, Option<String>, bool) {
     let events: Vec<String> = if evs == "-" { vec![] } else { evs.split(',').map(|s| s.to_string()).collect() };
     let mut verdict: Option<String> = None;
     NODE_COUNTS.with(|c| c.borrow_mut().clear());
+    let (mode, intr) = match mode { "blockx" => ("block", true), "streamx" => ("stream", true), m => (m, false) };
+    INTRUDE.with(|i| i.set(intr));
     let obs = exec_mode(mode, &vs, &events, &mut verdict);
+    INTRUDE.with(|i| i.set(false));
     // the first render closure of the case belongs to `mode`
     if let Some(n) = NODE_COUNTS.with(|c| c.borrow().first().copied()) {
         let root_of = if mode.starts_with("blockdrop") { "block" } else { mode };
@@ -585,6 +611,8 @@ pub fn generate(args: &Args) -> Vec<String> {
             let e = if p.is_empty() { "-".to_string() } else { p.join(",") };
             l.push(format!("assr block {f} {e}"));
             l.push(format!("assr stream {f} {e}"));
+            l.push(format!("assr blockx {f} {e}"));
+            l.push(format!("assr streamx {f} {e}"));
             // an incomplete schedule: the last completion never happens
             if p.len() > 1 { let q = p[..p.len() - 1].join(","); l.push(format!("assr block {f} {q}")); l.push(format!("assr stream {f} {q}")); l.push(format!("assr blockdrop {f} {q}")); }
             if p.len() == 1 { l.push(format!("assr blockdrop {f} -")); }
@@ -607,6 +635,7 @@ pub fn generate(args: &Args) -> Vec<String> {
         l.push(format!("assr sync {s} -"));
         l.push(format!("assr block {s} {e}"));
         l.push(format!("assr stream {s} {e}"));
+        if rng.chance(1, 3) { l.push(format!("assr {} {s} {e}", if rng.chance(1, 2) { "blockx" } else { "streamx" })); }
         if !evs.is_empty() && rng.chance(1, 3) {
             let cut = rng.below(evs.len());
             l.push(format!("assr blockdrop {s} {}", if cut == 0 { "-".to_string() } else { evs[..cut].join(",") }));
